@@ -76,6 +76,7 @@ func checkC15(p *Prog, c *Check) {
 		c15Hash(p, c, sp)
 		c15FreshFetch(p, c, sp)
 		c15ReorgParams(p, c, sp)
+		c15StartIsNext(p, c, sp)
 	}
 	c.Floor("C15.syncers", nSync, 3)
 	c15Ranges(p, c)
@@ -315,8 +316,7 @@ func c15Order(p *Prog, c *Check, sp syncerSpec) {
 			ok := sc != rc && instrDominates(rc, sc) && fi.mustPassSuccess(rc, sc.Block())
 			c.Result(ok, rule, key, p.siteOf(sc), shortFn(fn), "source of the range start: "+shortCallee(callName(sc)), "the start of the synced range is not (only) built from a position read after a successful reorg check: after a rollback it is stale and the rolled-back blocks are never refetched", "read after handlePotentialReorg(...) == nil")
 		}
-		srs := callsTo(fn, "syncRange")
-		c.Floor(rule+".syncRange", len(srs), 1)
+		c.Floor(rule+".syncRange", countSyncRangeCalls(p, sp), 1)
 		return
 	}
 	for i, rd := range reads {
@@ -325,8 +325,20 @@ func c15Order(p *Prog, c *Check, sp syncerSpec) {
 		c.Result(ok, rule, key, p.siteOf(rd), shortFn(fn), "read of sync position", "the sync position is read on a path that has not passed a successful handlePotentialReorg", "handlePotentialReorg(...) == nil dominates")
 	}
 	// syncRange is applied to ranges starting at position+1 of that read and the loop stops at the first error (ERRPROP)
-	srs := callsTo(fn, "syncRange")
-	c.Floor(rule+".syncRange", len(srs), 1)
+	c.Floor(rule+".syncRange", countSyncRangeCalls(p, sp), 1)
+}
+
+// countSyncRangeCalls: calls of the per-range step in the methods of the syncer.
+func countSyncRangeCalls(p *Prog, sp syncerSpec) int {
+	ms, err := p.methodsOf(sp.typ)
+	if err != nil {
+		return 0
+	}
+	n := 0
+	for _, m := range ms {
+		n += len(callsTo(m, "syncRange"))
+	}
+	return n
 }
 
 func c15Rollback(p *Prog, c *Check, sp syncerSpec) {
